@@ -24,7 +24,7 @@ type wspec struct {
 
 func (w wspec) apply(s rowState) rowState {
 	if w.set {
-		return rowState{w.d, 100 - w.d, w.d}
+		return rowState{w.d, s.a + s.b - w.d, w.d}
 	}
 	return rowState{s.a + w.d, s.b - w.d, s.m*3 + w.d}
 }
@@ -88,6 +88,9 @@ func mkRowsColl(lg commit.Logger) *column.Collection {
 // seedRows creates the rows of the scenario: offsets 0,1 by Insert, block-1 rows through Replay
 func seedRows(c *column.Collection, rows []uint32) {
 	for _, off := range rows {
+		if off == virginRow {
+			continue // created by the first writer that touches it
+		}
 		buf := func(name string, v uint64) *commit.Buffer {
 			b := commit.NewBuffer(16)
 			b.Reset(name)
@@ -126,6 +129,15 @@ func applyOrder(trace []TraceStep) map[uint32][]int {
 // ---------------------------------------------------------------------------------------
 // scenario "rows": concurrent merging / overwriting writers, readers, stream, replica
 
+const virginRow = 32768 + 1 // a row in a block that does not exist until a writer creates it
+
+func initOf(off uint32) rowState {
+	if off == virginRow {
+		return rowState{0, 0, 0}
+	}
+	return rowState{0, 100, 0}
+}
+
 type rowsCfg struct {
 	rows    []uint32
 	writers []wspec
@@ -137,6 +149,9 @@ func genRowsCfg(rng *Rng) rowsCfg {
 	cfg := rowsCfg{rows: []uint32{0, 1}}
 	if rng.Chance(60) {
 		cfg.rows = append(cfg.rows, 16384+3)
+	}
+	if rng.Chance(35) {
+		cfg.rows = append(cfg.rows, virginRow)
 	}
 	nw := 2 + rng.Intn(2)
 	for i := 0; i < nw; i++ {
@@ -190,7 +205,7 @@ func runRows(cfg rowsCfg, ch func(int, []int) int, grace time.Duration) *scenOut
 					txn.QueryAt(off, func(r column.Row) error {
 						if w.set {
 							r.SetInt64("a", w.d)
-							r.SetInt64("b", 100-w.d)
+							r.SetInt64("b", initOf(off).b-w.d)
 							r.SetInt64("m", w.d)
 						} else {
 							r.MergeInt64("a", w.d)
@@ -255,14 +270,14 @@ func runRows(cfg rowsCfg, ch func(int, []int) int, grace time.Duration) *scenOut
 	}
 	// C10: no torn row
 	for _, sn := range seens {
-		if sn.ok && sn.a+sn.b != 100 {
-			out.viol("C10", "reader saw a=%d b=%d on row %d inside one callback (invariant a+b=100)", sn.a, sn.b, sn.row)
+		if sn.ok && sn.a+sn.b != initOf(sn.row).b {
+			out.viol("C10", "reader saw a=%d b=%d on row %d inside one callback (invariant a+b=%d)", sn.a, sn.b, sn.row, initOf(sn.row).b)
 		}
 	}
 	// C09: every row equals the fold of the committed writers in the apply order of its block
 	order := applyOrder(s.Trace)
 	for _, off := range cfg.rows {
-		exp := rowState{0, 100, 0}
+		exp := initOf(off)
 		for _, tid := range order[off>>14] {
 			if tid >= len(cfg.writers) {
 				continue
@@ -278,6 +293,9 @@ func runRows(cfg rowsCfg, ch func(int, []int) int, grace time.Duration) *scenOut
 			}
 		}
 		got, ok := readRow(c, off)
+		if off == virginRow && exp == initOf(off) && !ok {
+			continue // never written
+		}
 		if !ok || got != exp {
 			out.viol("C09", "row %d holds %+v, the fold of the committed deltas in apply order %v gives %+v", off, got, order[off>>14], exp)
 		}
@@ -397,7 +415,7 @@ func runSnap(cfg rowsCfg, ch func(int, []int) int, grace time.Duration) *scenOut
 					txn.QueryAt(off, func(r column.Row) error {
 						if w.set {
 							r.SetInt64("a", w.d)
-							r.SetInt64("b", 100-w.d)
+							r.SetInt64("b", initOf(off).b-w.d)
 							r.SetInt64("m", w.d)
 						} else {
 							r.MergeInt64("a", w.d)
@@ -469,7 +487,7 @@ func runSnap(cfg rowsCfg, ch func(int, []int) int, grace time.Duration) *scenOut
 		for n := len(ord); n >= 0; n-- {
 			ok := true
 			for _, off := range rowsOfBlock {
-				exp := rowState{0, 100, 0}
+				exp := initOf(off)
 				for _, tid := range ord[:n] {
 					for _, r := range cfg.writers[tid].rows {
 						if r == off {
@@ -478,6 +496,9 @@ func runSnap(cfg rowsCfg, ch func(int, []int) int, grace time.Duration) *scenOut
 					}
 				}
 				got, has := readRow(d, off)
+				if off == virginRow && n == 0 && !has {
+					continue
+				}
 				if !has || got != exp {
 					ok = false
 					break
@@ -502,13 +523,19 @@ func runSnap(cfg rowsCfg, ch func(int, []int) int, grace time.Duration) *scenOut
 	// blocks without a writer: unchanged
 	for _, off := range cfg.rows {
 		if _, touched := order[off>>14]; !touched {
-			if got, ok := readRow(d, off); !ok || got != (rowState{0, 100, 0}) {
+			if got, ok := readRow(d, off); off != virginRow && (!ok || got != (rowState{0, 100, 0})) {
 				out.viol("C08", "untouched row %d restored as %+v", off, got)
 			}
 		}
 	}
-	if d.Count() != len(cfg.rows) {
-		out.viol("C08", "restored Count %d, want %d", d.Count(), len(cfg.rows))
+	live := 0
+	for _, off := range cfg.rows {
+		if off != virginRow {
+			live++
+		}
+	}
+	if d.Count() != live {
+		out.viol("C08", "restored Count %d, want %d", d.Count(), live)
 	}
 	out.Features["writers"] = nw
 	return out
